@@ -588,7 +588,7 @@ func run(ctx *fw.Ctx, rep *fw.Report) {
 	if os.Getenv("C02_CHILD") != "" {
 		child(ctx) // does not return
 	}
-	rep.Rule = fmt.Sprintf("receivers: real Server (T-frames from a raw peer, memfs, 15-fid fixture, sentinel Tgetattr with unique tag last) and real Client (R-frames from a scripted peer while 1 or 2 calls are pending); x limit {negotiated msize 4096, unnegotiated: 4 MiB server / 64 KiB client default} (quick); for the canonical frame of every one of the %d registered types (refcodec): the frame itself; every truncation offset followed by EOF; size field in {0,1,6,7,8,len-1,len+1,msize-1,msize,msize+1,4MiB,4MiB+1,2^31,2^32-1}; every byte position x {0x00,0xff,b^1,b^0x80}; every 16-bit count/length position (string lengths, nwname, wname lengths, nwqid, dirent name lengths) x {0,1,n-1,n+1,0x7fff,0x8000,0xffff}; every 32-bit data count x {0,n-1,n+1,2^32-1} and request count x {.., msize-11, msize, msize+1, 4MiB, 4MiB+1}; all 256 type bytes x {empty body, mid-size body}; consistent payload lengths around the limits (Twrite frame size 23,24,msize-1,msize,msize+1; Rread data length, Rwrite count, Rxattrwalk size grids); all sequences of length 1..3 (thorough: 1..4) over {good, unknown-type, unknown-type-empty, body-short, strlen-beyond-body, list-count-beyond-body, data-count-inconsistent, trailing-bytes, size<7, size>msize}; thorough tier adds: negotiated msize 512 and 65536 (server) / 512 and 16384 (client), and every PAIR of byte positions among the first 16 bytes x the four values each; every stream is followed by EOF; distinct = (side, limit, family, type, classifier verdicts, observed replies / call outcomes)", len(refcodec.Defs))
+	rep.Rule = fmt.Sprintf("receivers: real Server (T-frames from a raw peer, memfs, 15-fid fixture, sentinel Tgetattr with unique tag last) and real Client (R-frames from a scripted peer while 1 or 2 calls are pending); x limit {negotiated msize 4096, unnegotiated: 4 MiB server / 64 KiB client default, server also: msize 65536 negotiated first and then 4096} (quick); for the canonical frame of every one of the %d registered types (refcodec): the frame itself; every truncation offset followed by EOF; size field in {0,1,6,7,8,len-1,len+1,msize-1,msize,msize+1,4MiB,4MiB+1,2^31,2^32-1}; every byte position x {0x00,0xff,b^1,b^0x80}; every 16-bit count/length position (string lengths, nwname, wname lengths, nwqid, dirent name lengths) x {0,1,n-1,n+1,0x7fff,0x8000,0xffff}; every 32-bit data count x {0,n-1,n+1,2^32-1} and request count x {.., msize-11, msize, msize+1, 4MiB, 4MiB+1}; all 256 type bytes x {empty body, mid-size body}; consistent payload lengths around the limits (Twrite frame size 23,24,msize-1,msize,msize+1; Rread data length, Rwrite count, Rxattrwalk size grids); all sequences of length 1..3 (thorough: 1..4) over {good, unknown-type, unknown-type-empty, body-short, strlen-beyond-body, list-count-beyond-body, data-count-inconsistent, trailing-bytes, size<7, size>msize}; thorough tier adds: negotiated msize 512 and 65536 (server) / 512 and 16384 (client), and every PAIR of byte positions among the first 16 bytes x the four values each; every stream is followed by EOF; distinct = (side, limit, family, type, classifier verdicts, observed replies / call outcomes)", len(refcodec.Defs))
 	rep.Assumptions = append(rep.Assumptions,
 		"classifier: delivered = known type, body decodes exactly; rejected = unknown type / body too short / counts beyond or inconsistent with the body; either = bytes after the last field, Rreaddir payload ending in an incomplete entry; conn-end = size<7 or size>limit; truncated = EOF inside the frame",
 		"server replies are matched to frames by tag (requests are served concurrently); a rejected frame may be answered with any tag (p9 uses NOTAG for undecodable bodies)",
